@@ -326,7 +326,13 @@ fn substitute_parameters(sql: &str, params: &[OwnedValue]) -> eyre::Result<Strin
                     );
                 }
 
-                result.push_str(&value_to_sql_literal(&params[idx]));
+                // a literal that starts with a minus sign must not fuse with a preceding `-`
+                // into a `--` comment (`30-?` with -10 bound)
+                let literal = value_to_sql_literal(&params[idx]);
+                if literal.starts_with('-') {
+                    result.push(' ');
+                }
+                result.push_str(&literal);
                 last_end = span.end();
             }
             _ => {}
@@ -351,7 +357,9 @@ fn value_to_sql_literal(value: &OwnedValue) -> String {
                     "'-Infinity'".to_string()
                 }
             } else {
-                f.to_string()
+                // Debug prints the shortest round-trip form and always keeps a fraction or an
+                // exponent (`1.0`, `1e300`), so the literal is read back as a Float
+                format!("{:?}", f)
             }
         }
         OwnedValue::Text(s) => {
